@@ -16,7 +16,8 @@ thread i running a program of operations {callLater, schedule(user task), synchr
 time-out of thread `tid` (`Event.wait(CYCLE_MAXIMUM)` / `select(..., timeout)` returning with nothing).
 
 Not modelled (C06's territory): timers and fd waits of ordinary tasks, priorities < 1, `quit`, `CallBlocking`,
-calls of `schedule`/`callLater` made *by cooperative tasks* (the direct branch of `schedule`, :233-245).
+`callLater` calls made by cooperative code.  A user task may call `schedule(other user task)` from inside its slice
+(the direct branch of `schedule`, taken on the scheduler thread).
 Core Lean only; structural recursion only. -/
 namespace Pox.Handoff
 
@@ -29,11 +30,18 @@ structure Call where
   seq : Nat
   deriving DecidableEq, Repr
 
+/-- one step of a user task's program: end the slice with `yield 0` / `yield False`, or — inside the slice — call
+    `scheduler.schedule(v)` (the direct branch: this is the scheduler thread) -/
+inductive UItem
+  | yieldF
+  | yield0
+  | sched (v : TaskId)
+  deriving DecidableEq, Repr
+
 /-- the task heap: what kind of task object lives at an id, with the part of its generator state that matters -/
 inductive Kind
-  /-- a cooperative task woken by `schedule()`: remaining slices (true = ends with `yield 0`, false = `yield False`);
-      after the list it keeps doing `yield False` -/
-  | user (prog : List Bool)
+  /-- a cooperative task woken by `schedule()`: its remaining program; after the list it keeps doing `yield False` -/
+  | user (prog : List UItem)
   /-- `CallLaterTask`; `started` = its generator has reached the first `yield Select` -/
   | clt (started : Bool)
   /-- `ScheduleTask(scheduler, target)`; `ran` = its single slice is over -/
@@ -75,6 +83,8 @@ inductive SPc
   | cltPong (c : TaskId)            -- `self._pinger.pongAll()`
   | cltPop (c : TaskId)             -- `e = self._calls.popleft()`
   | cltCall (c : TaskId) (e : Call) -- `e[0](*e[1], **e[2])`
+  | usContains (t v : TaskId)       -- user task t calls `schedule(v)`: `if task in self._ready` (direct branch)
+  | usFs (t v : TaskId) (p : FsPc)  -- … `self.fast_schedule(task, first)` on the scheduler thread
   deriving DecidableEq, Repr
 
 inductive HPc
@@ -148,7 +158,7 @@ inductive Site
   | se_create | se_acqIn | sx_relOut
   | run_len | idle_wait | idle_clear
   | cyc_pop | cyc_append | user_body
-  | st_contains
+  | st_contains | sch_contains
   | sy_relIn | sy_acqOut
   | rs_put
   | clt_pong | clt_pop | clt_call
@@ -233,6 +243,15 @@ def dispatch (s : State) (t : TaskId) : Option State :=
 
 def afterIdle (s : State) : State := { s with s := .cycPop }
 
+/-- user task `t` goes on inside its slice: the next item of its program decides where the scheduler thread's next
+    shared action is (thread-local control only).  (`t` is always a user task here; the last case is not reachable.) -/
+def userNext (s : State) (t : TaskId) : State :=
+  match s.tasks[t]? with
+  | some (.user (.sched v :: p)) => { setTask s t (.user p) with s := .usContains t v }
+  | some (.user (.yield0 :: p)) => { setTask s t (.user p) with s := .cycAppend t }
+  | some (.user (.yieldF :: p)) => { setTask s t (.user p) with s := .runLen }
+  | _ => { s with s := .runLen }
+
 def stepS (s : State) : Option State :=
   match s.s with
   | .runLen =>
@@ -248,10 +267,14 @@ def stepS (s : State) : Option State :=
     | t :: rest => dispatch { s with ready := rest } t
   | .userBody t =>
     match s.tasks[t]? with
-    | some (.user (true :: p)) => some { setTask s t (.user p) with slices := s.slices ++ [t], s := .cycAppend t }
-    | some (.user (false :: p)) => some { setTask s t (.user p) with slices := s.slices ++ [t], s := .runLen }
-    | some (.user []) => some { s with slices := s.slices ++ [t], s := .runLen }
+    | some (.user _) => some (userNext { s with slices := s.slices ++ [t] } t)
     | _ => none
+  | .usContains t v =>
+    if v ∈ s.ready then some (userNext s t)                -- "scheduled multiple times": `return False`
+    else some { s with s := .usFs t v .assert }
+  | .usFs t v p =>
+    some (fsK s v false p (fun s' p' => { s' with s := .usFs t v p' }) (fun s' => userNext s' t)
+      (fun s' => { s' with s := .runLen }))                 -- AssertionError inside the task: de-scheduled
   | .cycAppend t => some { s with ready := s.ready ++ [t], s := .runLen }
   | .stContains st =>
     match s.tasks[st]? with
@@ -302,6 +325,8 @@ def siteS (s : State) : Site :=
   | .cltPong _ => .clt_pong
   | .cltPop _ => .clt_pop
   | .cltCall _ _ => .clt_call
+  | .usContains _ _ => .sch_contains
+  | .usFs _ _ p => fsSite s false p
 
 /-! ## the hub thread (threaded mode) -/
 
@@ -419,7 +444,7 @@ def siteOf (s : State) : Tid → Option Site
     | _ => none
   | i + 2 => (s.fs[i]?).map (siteF s)
 
-def init (threaded : Bool) (users : List (List Bool)) (progs : List (List Op)) : State :=
+def init (threaded : Bool) (users : List (List UItem)) (progs : List (List Op)) : State :=
   { threaded := threaded, nUsers := users.length, tasks := users.map .user,
     h := if threaded then .hub .select else .off,
     fs := progs.map fun p => { prog := p } }
@@ -428,7 +453,7 @@ def init (threaded : Bool) (users : List (List Bool)) (progs : List (List Op)) :
 def progsOk (nUsers : Nat) (progs : List (List Op)) : Prop :=
   ∀ p ∈ progs, ∀ t, Op.schedule t ∈ p → t < nUsers
 
-inductive Reachable (threaded : Bool) (users : List (List Bool)) (progs : List (List Op)) : State → Prop
+inductive Reachable (threaded : Bool) (users : List (List UItem)) (progs : List (List Op)) : State → Prop
   | init : Reachable threaded users progs (init threaded users progs)
   | step {s s' : State} (tid : Tid) : Reachable threaded users progs s → step s tid = some s' →
       Reachable threaded users progs s'
